@@ -127,8 +127,46 @@ func (r *runner) run(c *fedlab.Case, key string) (*fedlab.Verdict, error) {
 			return fedlab.Action{Delay: time.Duration(rand.IntN(n*1000+1)) * time.Microsecond}
 		}}
 	}
-	return fedlab.Check(lab, c.Op.Text(), c.Op.Name, []byte(c.Op.VariablesJSON()), ro), nil
+	v := fedlab.Check(lab, c.Op.Text(), c.Op.Name, []byte(c.Op.VariablesJSON()), ro)
+	diagnose(c, lab, v)
+	return v, nil
 }
+
+// diagnose extends the detail of a data_equal failure with what a narrow classification needs: the response
+// position of the first difference, the type-condition combinations the operation selects that position under,
+// and the fields (with their type conditions) the post-processed response plan holds for it.
+func diagnose(c *fedlab.Case, lab *fedlab.Lab, v *fedlab.Verdict) {
+	if v.LabError != "" || !v.PlanningOK || v.DataEqual || v.Gateway == nil || v.Ref == nil {
+		return
+	}
+	pos := fedlab.DiffPosition(v.Gateway.Data, v.Ref.Data)
+	if len(pos) == 0 {
+		return
+	}
+	combos := c.CondCombos()[strings.Join(pos, ".")]
+	fields, err := lab.PlanFields(c.Op.Text(), c.Op.Name, pos)
+	pf := strings.Join(fields, " | ")
+	if err != nil {
+		pf = "unavailable: " + fedlab.Trunc(err.Error(), 80)
+	}
+	// planner-made upstream aliases (abstract_selection_field_alias.go) of a response key on the way to the position
+	var aliases []string
+	seen := map[string]bool{}
+	for _, q := range v.Gateway.Requests {
+		for _, a := range mergeAliasRE.FindAllString(q.Query, -1) {
+			for _, key := range pos {
+				if strings.HasSuffix(a, "_"+key) && !seen[a] {
+					seen[a] = true
+					aliases = append(aliases, a)
+				}
+			}
+		}
+	}
+	v.Diff = fedlab.Trunc(v.Diff, 260) + fmt.Sprintf(" ;; position %s selected under %d condition combination(s) {%s}; plan fields {%s}; upstream merge aliases {%s}",
+		strings.Join(pos, "."), len(combos), strings.Join(combos, " , "), pf, strings.Join(aliases, ","))
+}
+
+var mergeAliasRE = regexp.MustCompile(`__internal_merge_\w+`)
 
 // ---------------------------------------------------------------- replay files
 
@@ -245,7 +283,7 @@ func caseLine(c *fedlab.Case, v *fedlab.Verdict, replayPath string) string {
 			"(reqvalid "+flag(len(v.InvalidRequests) == 0)+")", "(owned "+flag(len(v.NotOwned) == 0)+")",
 			"(reprs "+flag(len(v.ReprIncomplete) == 0)+")", "(goequal "+flag(v.DataEqual)+")", "(orderonly "+flag(v.OrderOnly)+")", "(panic "+flag(v.Panicked)+")"),
 		common.L("gw", gw), common.L("ref", ref),
-		common.L("detail", common.QS(fedlab.Trunc(v.FailDetail(), 300))), common.L("replay", common.QS(replayPath)),
+		common.L("detail", common.QS(fedlab.Trunc(v.FailDetail(), 900))), common.L("replay", common.QS(replayPath)),
 		common.L("op", common.QS(fedlab.Trunc(c.Op.Text(), 400))))
 }
 
@@ -586,6 +624,33 @@ func cmdReplay(a map[string]string) {
 	}
 }
 
+// cmdDump prints what (seed, index, uni, knobs) generates -- configuration, SDLs, universe, operation,
+// variables -- without running anything: the generator's stability across fedlab changes is checked by
+// diffing two dumps byte for byte (c01 dump -seed S -n N [-unis U] [-knobs K] [-exact 1]).
+func cmdDump(a map[string]string) {
+	seed := common.ArgU64(a, "seed", 1)
+	n := common.ArgInt(a, "n", 100)
+	from := common.ArgInt(a, "from", 0)
+	unis := common.ArgInt(a, "unis", 1)
+	knobs := fedlab.ParseKnobs(a["knobs"])
+	w := bufio.NewWriter(os.Stdout)
+	defer w.Flush()
+	for i := from; i < from+n; i++ {
+		for u := 0; u < unis; u++ {
+			c := fedlab.BuildCase(seed, i, u, knobs, a["exact"] == "1")
+			cj, _ := json.Marshal(c.Cfg)
+			fmt.Fprintf(w, "=== %d %d %d knobs=%s\n", seed, i, u, c.Knobs.String())
+			fmt.Fprintf(w, "config %s\n", cj)
+			fmt.Fprintf(w, "super\n%s", c.Cfg.Super.SDL())
+			for _, g := range c.Cfg.Subgraphs {
+				fmt.Fprintf(w, "subgraph %s\n%s", g.Name, c.Cfg.SubgraphSDL(g))
+			}
+			fmt.Fprintf(w, "universe %s\n", c.Uni.Sexp())
+			fmt.Fprintf(w, "operation %s\nvariables %s\n", c.Op.Text(), c.Op.VariablesJSON())
+		}
+	}
+}
+
 func main() {
 	if len(os.Args) < 2 {
 		fmt.Println("usage: c01 gen|one|corpus|shrink ...")
@@ -603,6 +668,8 @@ func main() {
 		cmdShrink(a)
 	case "probe":
 		cmdProbe(a)
+	case "dump":
+		cmdDump(a)
 	default:
 		fmt.Println("unknown command")
 		os.Exit(2)
